@@ -34,6 +34,7 @@ ITEM_SETS = [
     [0x5A, 0x416, 0xD7, 0xFB01],        # Z  Ж  ×  ﬁ
     [0x21, 0x447, 0x401, 0x5D0],        # !  ч  Ё  א
     [0x7D, 0x42E, 0xFF21, 0x391],       # }  Ю  fullwidth A  Greek Alpha (look-alikes of 'A')
+    [0x438, 0x418, 0x306, 0x308],       # и  И  combining breve  combining diaeresis: decomposed й / ё are two characters, the second one refused
     [0x24, 0x44F, 0xFEFF, 0xE9],        # $ (byte 0x24 has two glyphs, $ and the alias U+00A4)  я  U+FEFF (byte order mark / ZWNBSP)  é
     [0x41, 0x44F, 0x1F600, 0x10000],    # A  я  😀  Linear B syllable: characters beyond the BMP
     [0x7E, 0x42A, 0x10FFFF, 0xE9],      # ~  Ъ  the last code point  é (an astral character before / after a BMP one)
@@ -226,7 +227,7 @@ def main(run):
 
     # the committed KOI8-R table must still be Python's koi8_r
     invs = ["ScanOK", "RoundTripFixed", "ExportString", "ExportTable"]
-    sets = ITEM_SETS if thorough else ITEM_SETS[:2] + ITEM_SETS[-4:]       # the last four: '$' and U+FEFF, beyond the BMP
+    sets = ITEM_SETS if thorough else ITEM_SETS[:2] + ITEM_SETS[-5:]       # the last five: combining marks, '$' and U+FEFF, beyond the BMP
     k = run.seed % len(ITEM_SETS)
     if not thorough and ITEM_SETS[k] not in sets:
         sets = sets + [ITEM_SETS[k]]
